@@ -200,6 +200,16 @@ pub trait Api: Send + Sync {
     fn dup(&self) -> Box<dyn Api>;
 }
 
+/// ttl_ms == u32::MAX stands for the largest TTL whose deadline still fits the expiry index's
+/// arithmetic on the unchanged tree: i64::MAX seconds
+fn ttl_of(ttl_ms: u32) -> Duration {
+    if ttl_ms == u32::MAX {
+        Duration::from_secs(i64::MAX as u64)
+    } else {
+        Duration::from_millis(ttl_ms as u64)
+    }
+}
+
 fn linger(us: u16) {
     let t0 = std::time::Instant::now();
     while t0.elapsed() < Duration::from_micros(us as u64) {
@@ -687,7 +697,21 @@ struct Shared {
     ret_stamp: Mutex<HashMap<Val, u64>>,
     /// (call began, call returned Ok) of every clear()
     clear_spans: Mutex<Vec<(u64, u64)>>,
+    /// insert(v) that returned true began at this monotone time
+    begin_ns: Mutex<HashMap<Val, u64>>,
 }
+
+/// monotone nanoseconds since the first use in this process
+fn mono_ns() -> u64 {
+    static BASE: std::sync::OnceLock<Instant> = std::sync::OnceLock::new();
+    BASE.get_or_init(Instant::now).elapsed().as_nanos() as u64 + 1
+}
+
+/// when the first close() of the running case passed its internal clear (yield point
+/// `close.after_clear`); 0 = not yet
+static CLOSE_CLEAR_DONE_NS: AtomicU64 = AtomicU64::new(0);
+/// stretch the window between close()'s clear and its stop signal (Close kind)
+static CLOSE_STRETCH: AtomicBool = AtomicBool::new(false);
 
 fn perturb_hook(seed: u64) {
     if seed == 0 {
@@ -695,7 +719,13 @@ fn perturb_hook(seed: u64) {
         return;
     }
     let ctr = AtomicU64::new(seed);
-    stretto::verif::set_global_yield_hook(Some(Arc::new(move |_id| {
+    stretto::verif::set_global_yield_hook(Some(Arc::new(move |id| {
+        if id == "close.after_clear" {
+            let _ = CLOSE_CLEAR_DONE_NS.compare_exchange(0, mono_ns(), Ordering::SeqCst, Ordering::SeqCst);
+            if CLOSE_STRETCH.load(Ordering::SeqCst) {
+                std::thread::sleep(Duration::from_micros(400));
+            }
+        }
         let mut x = ctr.fetch_add(0x9E37_79B9_7F4A_7C15, Ordering::Relaxed);
         x ^= x >> 29;
         x = x.wrapping_mul(0xBF58_476D_1CE4_E5B9);
@@ -800,7 +830,10 @@ fn run_inner(case: &StressCase) -> SResult {
         lclock: AtomicU64::new(1),
         ret_stamp: Mutex::new(HashMap::new()),
         clear_spans: Mutex::new(Vec::new()),
+        begin_ns: Mutex::new(HashMap::new()),
     });
+    CLOSE_CLEAR_DONE_NS.store(0, Ordering::SeqCst);
+    CLOSE_STRETCH.store(case.kind == Kind::Close && case.perturb % 2 == 0, Ordering::SeqCst);
     if case.kind == Kind::Reclaim {
         return run_reclaim(case, api, &cb);
     }
@@ -909,6 +942,7 @@ fn run_inner(case: &StressCase) -> SResult {
     let cfg = case.cfg.clone();
     let wb = w_before;
     let lone_closer = case.threads.len() == 1;
+    let single_close = case.threads.iter().flatten().filter(|o| matches!(o, SOp::Close)).count() == 1 && !case.threads.iter().flatten().any(|o| matches!(o, SOp::Clear));
     let check = move || -> Option<SResult> {
         let t = n;
         post.register(t);
@@ -965,6 +999,30 @@ fn run_inner(case: &StressCase) -> SResult {
                             }
                         };
                         let before = api2.snapshot();
+                        // C08: close() clears first and stops the workers afterwards; a value whose
+                        // insert *began* after that clear and was accepted is not covered by the
+                        // "close() drops resident values silently" exception - it was not resident
+                        // then. Once everything has wound down it is resident or was handed to
+                        // exactly one callback. (Judged when there is a single close() and no
+                        // clear() in the scripts.)
+                        let t_clear = CLOSE_CLEAR_DONE_NS.load(Ordering::SeqCst);
+                        if quiet && single_close && t_clear != 0 {
+                            let resident: HashSet<Val> = before.entries.iter().map(|e| e.value).collect();
+                            let log = post_sh.cb.log.lock();
+                            for (v, began) in post_sh.begin_ns.lock().iter() {
+                                if *began <= t_clear {
+                                    continue;
+                                }
+                                let n = log.iter().filter(|(_, e)| e.val() == Some(*v)).count() + resident.contains(v) as usize;
+                                if n != 1 {
+                                    return Some(SResult::violation(
+                                        &["C08"],
+                                        "accepted_during_close_lost",
+                                        format!("value {} was accepted by an insert that began after close() had finished its clear; after the workers wound down it is resident {} time(s) and was handed to {} callback(s)", v, resident.contains(v) as usize, n - resident.contains(v) as usize),
+                                    ));
+                                }
+                            }
+                        }
                         // C19: a lone close() (nothing racing it) leaves the synchronous cache empty
                         // - close() clears before it stops the workers - and the async cache must
                         // show the same
@@ -1001,62 +1059,7 @@ fn run_inner(case: &StressCase) -> SResult {
                 }
                 None
             }
-            Kind::Config => {
-                // workers alive, wait() returns Ok, a later insert is still processed
-                let mut ok = false;
-                let mut last = String::new();
-                for _ in 0..2000 {
-                    post.enter(t, 6);
-                    let r = api2.wait();
-                    post.leave(t);
-                    match r {
-                        Ok(()) => {
-                            ok = true;
-                            break;
-                        }
-                        Err(e) => {
-                            last = e;
-                            std::thread::sleep(Duration::from_micros(200));
-                        }
-                    }
-                }
-                if !ok {
-                    return Some(SResult::violation(&["C20"], "wait_never_ok", format!("configuration {:?} ({:?}): wait() kept failing after the workload: {}", cfg, exec, last)));
-                }
-                let s = post_sh.serial.fetch_add(1, Ordering::SeqCst) + 1;
-                let v = Val { key: 999_999, serial: s, tag: 1 };
-                let mut accepted = false;
-                for _ in 0..2000 {
-                    post.enter(t, 1);
-                    let r = api2.insert(999_999, v, 1, Duration::ZERO);
-                    post.leave(t);
-                    if r == Ok(true) {
-                        accepted = true;
-                        break;
-                    }
-                    std::thread::sleep(Duration::from_micros(200));
-                }
-                if !accepted {
-                    return Some(SResult::violation(&["C20"], "insert_never_accepted", format!("configuration {:?}: insert kept returning false on an idle cache", cfg)));
-                }
-                let mut ok = false;
-                for _ in 0..2000 {
-                    post.enter(t, 6);
-                    let r = api2.wait();
-                    post.leave(t);
-                    if r.is_ok() {
-                        ok = true;
-                        break;
-                    }
-                    std::thread::sleep(Duration::from_micros(200));
-                }
-                let resident = api2.get(999_999) == Some(v);
-                let called = post_sh.cb.log.lock().iter().any(|(_, e)| e.val() == Some(v));
-                if !ok || !(resident || called) {
-                    return Some(SResult::violation(&["C20"], "insert_not_processed", format!("configuration {:?}: an insert after the workload was neither admitted nor rejected (wait ok: {})", cfg, ok)));
-                }
-                None
-            }
+            Kind::Config => liveness_probe(&**api2, &post, &post_sh, t, &["C20"], &cfg, exec),
             _ => None,
         }
     };
@@ -1077,6 +1080,14 @@ fn run_inner(case: &StressCase) -> SResult {
     // quiescence-based invariants
     if matches!(case.kind, Kind::Invariants | Kind::Barrier) {
         if let Some(v) = watch(&progress, grace, &mk_hang2, || quiescent_invariants(case, &api, &sh, &progress)) {
+            return v;
+        }
+    }
+    // a cache that was never closed stays usable whatever the clients did to it (after the
+    // invariants: the probe's own insert and lookup are not part of the recorded history)
+    if matches!(case.kind, Kind::Invariants) {
+        let t = case.threads.len();
+        if let Some(v) = watch(&progress, grace, &mk_hang2, || liveness_probe(&**api, &progress, &sh, t, &["C11", "C04", "C20"], &case.cfg, case.exec)) {
             return v;
         }
     }
@@ -1203,8 +1214,9 @@ fn client(t: usize, kind: Kind, api: Box<dyn Api>, script: &[SOp], sh: &Shared, 
                 let v = Val { key: k, serial: s, tag: (*cost).clamp(0, 1000) as u32 + 1 };
                 sh.issued.lock().entry(k).or_default().insert(v);
                 let seq_before = sh.clear_seq.load(Ordering::SeqCst);
+                let began = mono_ns();
                 progress.enter(t, 1);
-                let r = a.insert(k as u64, v, *cost, Duration::from_millis(*ttl_ms as u64));
+                let r = a.insert(k as u64, v, *cost, ttl_of(*ttl_ms));
                 progress.leave(t);
                 hist(format!("insert({}, {}, cost {}, ttl {}ms) = {:?}", k, v, cost, ttl_ms, r));
                 match r {
@@ -1212,6 +1224,7 @@ fn client(t: usize, kind: Kind, api: Box<dyn Api>, script: &[SOp], sh: &Shared, 
                         // a clear()/close() that overlapped the call leaves an odd or changed number
                         let seq_after = sh.clear_seq.load(Ordering::SeqCst);
                         sh.accepted.lock().push((v, if seq_after == seq_before { seq_before } else { u32::MAX }));
+                        sh.begin_ns.lock().insert(v, began);
                         let st = sh.lclock.fetch_add(1, Ordering::SeqCst);
                         sh.ret_stamp.lock().insert(v, st);
                         if kind == Kind::Barrier {
@@ -1447,6 +1460,64 @@ fn client(t: usize, kind: Kind, api: Box<dyn Api>, script: &[SOp], sh: &Shared, 
     }
 }
 
+/// After the workload: the workers are alive - wait() returns Ok, a further insert is accepted and
+/// processed (admitted or handed to a callback).
+fn liveness_probe(api2: &dyn Api, post: &Progress, post_sh: &Shared, t: usize, props: &'static [&'static str], cfg: &SCfg, exec: Exec) -> Option<SResult> {
+    let mut ok = false;
+                let mut last = String::new();
+                for _ in 0..2000 {
+                    post.enter(t, 6);
+                    let r = api2.wait();
+                    post.leave(t);
+                    match r {
+                        Ok(()) => {
+                            ok = true;
+                            break;
+                        }
+                        Err(e) => {
+                            last = e;
+                            std::thread::sleep(Duration::from_micros(200));
+                        }
+                    }
+                }
+                if !ok {
+                    return Some(SResult::violation(props, "wait_never_ok", format!("configuration {:?} ({:?}): wait() kept failing after the workload: {}", cfg, exec, last)));
+                }
+                let s = post_sh.serial.fetch_add(1, Ordering::SeqCst) + 1;
+                let v = Val { key: 999_999, serial: s, tag: 1 };
+                let mut accepted = false;
+                for _ in 0..2000 {
+                    post.enter(t, 1);
+                    let r = api2.insert(999_999, v, 1, Duration::ZERO);
+                    post.leave(t);
+                    if r == Ok(true) {
+                        accepted = true;
+                        break;
+                    }
+                    std::thread::sleep(Duration::from_micros(200));
+                }
+                if !accepted {
+                    return Some(SResult::violation(props, "insert_never_accepted", format!("configuration {:?}: insert kept returning false on an idle cache", cfg)));
+                }
+                let mut ok = false;
+                for _ in 0..2000 {
+                    post.enter(t, 6);
+                    let r = api2.wait();
+                    post.leave(t);
+                    if r.is_ok() {
+                        ok = true;
+                        break;
+                    }
+                    std::thread::sleep(Duration::from_micros(200));
+                }
+                let resident = api2.get(999_999) == Some(v);
+                let called = post_sh.cb.log.lock().iter().any(|(_, e)| e.val() == Some(v));
+                if !ok || !(resident || called) {
+                    return Some(SResult::violation(props, "insert_not_processed", format!("configuration {:?}: an insert after the workload was neither admitted nor rejected (wait ok: {})", cfg, ok)));
+                }
+    None
+}
+
 fn own_key(t: usize, k: u32) -> u32 {
     (t as u32) * 1000 + (k % 6)
 }
@@ -1587,7 +1658,7 @@ fn quiescent_invariants(case: &StressCase, api: &Arc<Box<dyn Api>>, sh: &Arc<Sha
 fn sop_common(nkeys: u32, max_cost: i64) -> BoxedStrategy<SOp> {
     let cost = prop_oneof![3 => 1i64..=4, 1 => Just(0i64), 1 => Just(max_cost.max(1)), 1 => Just((max_cost / 2).max(1))];
     prop_oneof![
-        10 => (0..nkeys, cost.clone(), prop_oneof![4 => Just(0u32), 1 => Just(1u32), 1 => 1u32..2000]).prop_map(|(k, cost, ttl_ms)| SOp::Insert { k, cost, ttl_ms }),
+        10 => (0..nkeys, cost.clone(), prop_oneof![8 => Just(0u32), 2 => Just(1u32), 2 => 1u32..2000, 1 => Just(u32::MAX)]).prop_map(|(k, cost, ttl_ms)| SOp::Insert { k, cost, ttl_ms }),
         2 => (0..nkeys, cost).prop_map(|(k, cost)| SOp::Iip { k, cost }),
         4 => (0..nkeys).prop_map(|k| SOp::Remove { k }),
         6 => (0..nkeys).prop_map(|k| SOp::Get { k }),
@@ -1618,7 +1689,7 @@ pub fn stress_strategy(kind: Kind, async_pct: u32) -> BoxedStrategy<StressCase> 
             .prop_flat_map(move |(exec, bs, nt, with_clear, perturb)| {
                 let batch = proptest::collection::vec(
                     prop_oneof![
-                        5 => (0u32..6, 1i64..4).prop_map(|(k, cost)| SOp::Insert { k, cost, ttl_ms: 0 }),
+                        5 => (0u32..6, 1i64..4, prop_oneof![6 => Just(0u32), 1 => Just(3_600_000u32), 1 => Just(u32::MAX)]).prop_map(|(k, cost, ttl_ms)| SOp::Insert { k, cost, ttl_ms }),
                         2 => (0u32..6).prop_map(|k| SOp::Remove { k }),
                         1 => (0u32..6).prop_map(|k| SOp::Get { k }),
                         1 => (0u32..6, 1i64..4).prop_map(|(k, cost)| SOp::Iip { k, cost }),
@@ -1699,10 +1770,17 @@ pub fn stress_strategy(kind: Kind, async_pct: u32) -> BoxedStrategy<StressCase> 
         )
             .prop_flat_map(move |(exec, bs, closers, racers, drop_only, perturb)| {
                 let pre = proptest::collection::vec(sop_common(8, 10), 0..12);
-                let racer = proptest::collection::vec(
-                    prop_oneof![8 => sop_common(8, 10), 1 => Just(SOp::Clear), 1 => Just(SOp::Len), 1 => (1i64..20).prop_map(|m| SOp::UpdateMax { m })],
-                    1..14,
-                );
+                let storm = perturb % 3 == 0;
+                let racer = if storm {
+                    // insert storms: many accepted inserts land between close()'s clear and its stop
+                    proptest::collection::vec(prop_oneof![6 => (0u32..40, 1i64..3).prop_map(|(k, cost)| SOp::Insert { k, cost, ttl_ms: 0 }), 1 => (0u16..600).prop_map(SOp::Spin)], 20..60).boxed()
+                } else {
+                    proptest::collection::vec(
+                        prop_oneof![8 => sop_common(8, 10), 1 => Just(SOp::Clear), 1 => Just(SOp::Len), 1 => (1i64..20).prop_map(|m| SOp::UpdateMax { m })],
+                        1..14,
+                    )
+                    .boxed()
+                };
                 let closer = (proptest::collection::vec(prop_oneof![(0u16..4000).prop_map(SOp::Spin), sop_common(8, 10)], 0..4)).prop_map(move |mut v| {
                     v.push(if drop_only { SOp::DropHandle } else { SOp::Close });
                     v
